@@ -200,8 +200,8 @@ def _rc_options(res, direct):
 
 def _bm_cases(two, tier):
     cases = []
-    A = _A_SHAPES if tier != "quick" else _A_SHAPES[:8]
-    B = _B_SHAPES if tier != "quick" else _B_SHAPES[:7]
+    A = _A_SHAPES if tier != "quick" else _A_SHAPES[:6]
+    B = _B_SHAPES if tier != "quick" else _B_SHAPES[:5]
     for a in A:
         for ra in _targets(a, _A_SHAPES):
             for b in B:
@@ -227,7 +227,7 @@ def _bm_dims(rule):
     q, t = _BM_CACHE[key]
     return [
         Dim("case", q, t),
-        Dim("dtype", ["f32"], ["f32", "i32", "f64"]),
+        Dim("dtype", ["f32", "i32", "f64"], cost=1),
         S.d_ck(3), S.d_inter(3), S.D_DIMS, S.D_VI, S.d_opset(18, 13, 21, 23),
     ]
 
@@ -272,7 +272,7 @@ def _bm_klass(nd, p, rule):
     return None
 
 
-S.register(Space("reshape_matmul_reshape", _bm_dims, _bm_build, near=_bm_near, klass=_bm_klass),
+S.register(Space("reshape_matmul_reshape", _bm_dims, _bm_build, near=_bm_near, klass=_bm_klass, max_dev={"thorough": 1}),
            rule_ids=["two_reshapes_matmul_reshape_rule", "one_reshape_matmul_reshape_rule"])
 
 
@@ -354,8 +354,8 @@ def _slice_dims(rule):
         Dim("end", ["d", "d+1", "MAX", "d-1", "-1", "0"], ["d", "d+1", "MAX", "d-1", "-1", "0", "I32MAX", "MIN"]),
         Dim("step", [1, 2, -1]),
         Dim("form", ["5in", "4in", "3in", "2axes", "2axes-partial", "scalar0d"]),
-        Dim("dshape", [[4, 5]], [[4, 5], [1, 5], [0, 5]]),
-        Dim("dtype", ["f32"], ["f32", "i64"]),
+        Dim("dshape", [[4, 5], [1, 5], [0, 5]], cost=1),
+        Dim("dtype", ["f32", "i64"], cost=1),
         S.d_ck(4), S.D_DIMS, S.D_VI, S.d_opset(18, 13, 21, 23),
     ]
 
@@ -406,7 +406,7 @@ def _slice_near(p, rule):
     return (not full) or S.is_nonconst(p) or p["form"] == "2axes-partial"
 
 
-S.register(Space("collapse_slice", _slice_dims, _slice_build, near=_slice_near, prune=_slice_prune),
+S.register(Space("collapse_slice", _slice_dims, _slice_build, near=_slice_near, prune=_slice_prune, max_dev={"thorough": 1}),
            rule_ids=["collapse_slice_rule", "collapse_slice2_rule"])
 
 
@@ -524,13 +524,19 @@ def _mm_dims(rule):
         Dim("cshape2", ["same", "scalar"]),
         Dim("xshape", [[3], [2, 3]], [[3], [2, 3], [], [1]]),
         Dim("xpos", ["first", "last"]),
-        Dim("dtype", ["f32", "i64"], ["f32", "i64", "f64", "i32", "f16"]),
+        Dim("dtype", ["f32", "i64"]),
+        Dim("dtype2", ["same", "f64", "i32", "f16"], cost=1),
+        # a second chain on the same x with other constants in the same graph
+        Dim("twin", ["no", "yes"], cost=1),
         S.d_ck(2), S.d_inter(1), S.D_DIMS, S.D_VI, S.d_opset(18, 13, 21, 23),
     ]
 
 
 def _mm_prune(p, rule):
-    if not S.is_float(p["dtype"]) and p["vals"] in ("nan-first", "inf"):
+    dt = p["dtype"] if p["dtype2"] == "same" else p["dtype2"]
+    if not S.is_float(dt) and p["vals"] in ("nan-first", "inf"):
+        return True
+    if p["dtype2"] != "same" and p["dtype"] != "f32":
         return True
     if p["dims"] != "static" and not p["xshape"]:
         return True
@@ -541,7 +547,7 @@ def _mm_prune(p, rule):
 
 def _mm_build(p, rule):
     op1, op2 = _MM_OPS[rule["id"]]
-    dt = p["dtype"]
+    dt = p["dtype"] if p["dtype2"] == "same" else p["dtype2"]
     mb = MB(p["opset"])
     xs = p["xshape"]
     x = mb.inp("x", dt, S.shp(p, xs))
@@ -564,6 +570,9 @@ def _mm_build(p, rule):
     o1 = mb.node(op1, ins1)
     o2 = mb.node(op2, [o1] + c2)
     mb.out(o2)
+    if p["twin"] == "yes":
+        t1 = mb.node(op1, [x] + [mk(v + 7, i, "init", cs) for i, v in enumerate(v1)])
+        mb.out(mb.node(op2, [t1] + [mk(v + 9, i, "init", cs2) for i, v in enumerate(v2)]))
     S.expose(mb, p, [o1])
     mb.special_feed = S.is_float(dt)
     return mb
@@ -576,12 +585,15 @@ def _mm_near(p, rule):
 
 
 def _mm_klass(nd, p, rule):
+    if "twin" in nd and set(nd) <= {"twin", "vals"}:
+        return "twin=second-chain-on-same-input"
     if "cshape" in nd and rule["id"] in ("min_max_rule", "max_min_rule") and set(nd) <= {"cshape", "vals", "cshape2", "xshape"}:
         return "cshape=" + str(nd["cshape"]).replace(" ", "")
     return None
 
 
-S.register(Space("min_max", _mm_dims, _mm_build, near=_mm_near, prune=_mm_prune, klass=_mm_klass), rule_ids=list(_MM_OPS))
+S.register(Space("min_max", _mm_dims, _mm_build, near=_mm_near, prune=_mm_prune, klass=_mm_klass, max_dev={"thorough": 1}),
+           rule_ids=list(_MM_OPS))
 
 
 # ---------------------------------------------------------------------------------------------------
@@ -600,15 +612,18 @@ def _rc_dims(rule):
     if rid == "successive_clip_rule":
         d += [Dim("min2", ["absent", "neg", "pos", "above"], list(_CL_MIN)),
               Dim("max2", ["absent", "neg", "pos"], list(_CL_MAX))]
-    d += [Dim("dtype", ["f32", "i64"], ["f32", "i64", "f64", "i32", "f16"]),
-          Dim("cshape", [[]], [[], [1]]),
+    d += [Dim("dtype", ["f32", "i64"]),
+          Dim("dtype2", ["same", "f64", "i32", "f16"], cost=1),
+          Dim("cshape", [[], [1]], cost=1),
+          # a second chain on the same x with other bounds in the same graph
+          Dim("twin", ["no", "yes"], cost=1),
           S.d_ck({"successive_relu_rule": 0, "successive_clip_rule": 4}.get(rid, 2)), S.d_inter(1), S.D_DIMS, S.D_VI,
           S.d_opset(18, 13, 21, 23)]
     return d
 
 
 def _rc_prune(p, rule):
-    return False
+    return p["dtype2"] != "same" and p["dtype"] != "f32"
 
 
 def _clip(mb, x, mn, mx, dt, kinds2, cshape, alts=True):
@@ -624,7 +639,7 @@ def _clip(mb, x, mn, mx, dt, kinds2, cshape, alts=True):
 
 def _rc_build(p, rule):
     rid = rule["id"]
-    dt = p["dtype"]
+    dt = p["dtype"] if p["dtype2"] == "same" else p["dtype2"]
     mb = MB(p["opset"])
     x = mb.inp("x", dt, S.shp(p, [2, 3]))
     S.bind_like(mb, [2, 3], variants=[{"N": 1, "?0": 1}])
@@ -650,6 +665,17 @@ def _rc_build(p, rule):
         y = _clip(mb, c, _CL_MIN[p["min2"]], _CL_MAX[p["max2"]], dt, k[2:], cs)
         inter = c
     mb.out(y)
+    if p["twin"] == "yes":
+        # same structure, bounds shifted by +0.5 / +1 (the rule names its new initializers after x)
+        sh = lambda v, dlt: None if v is None else v + dlt  # noqa: E731
+        ii = ["init"] * 4
+        if rid == "successive_clip_relu_rule":
+            mb.out(_clip(mb, mb.node("Relu", [x]), sh(mn1, 1), sh(mx1, 1), dt, ii[:2], cs))
+        elif rid == "successive_relu_clip_rule":
+            mb.out(mb.node("Relu", [_clip(mb, x, sh(mn1, 1), sh(mx1, 1), dt, ii[:2], cs)]))
+        else:
+            c2 = _clip(mb, x, sh(mn1, 1), sh(mx1, 1), dt, ii[:2], cs)
+            mb.out(_clip(mb, c2, sh(_CL_MIN[p["min2"]], 1), sh(_CL_MAX[p["max2"]], 1), dt, ii[2:], cs))
     S.expose(mb, p, [inter])
     return mb
 
@@ -659,6 +685,8 @@ def _rc_near(p, rule):
 
 
 def _rc_klass(nd, p, rule):
+    if "twin" in nd and set(nd) <= {"twin", "min1", "max1", "min2", "max2"}:
+        return "twin=second-chain-on-same-input"
     if rule["id"] == "successive_clip_rule" and set(nd) <= {"min1", "max1", "min2", "max2"}:
         mx1, mn2 = _CL_MAX[p["max1"]], _CL_MIN[p["min2"]]
         if mx1 is not None and mn2 is not None and mn2 > mx1:
@@ -666,6 +694,6 @@ def _rc_klass(nd, p, rule):
     return None
 
 
-S.register(Space("relu_clip", _rc_dims, _rc_build, near=_rc_near, prune=_rc_prune, klass=_rc_klass),
+S.register(Space("relu_clip", _rc_dims, _rc_build, near=_rc_near, prune=_rc_prune, klass=_rc_klass, max_dev={"thorough": 1}),
            rule_ids=["successive_clip_relu_rule", "successive_relu_clip_rule", "successive_relu_rule",
                      "successive_clip_rule"])
